@@ -1451,6 +1451,7 @@ ABT_thread ABTI_pool_pop_timedwait(ABTI_pool *p_pool, double abstime_secs)
             ABTI_unit_get_thread(ABTI_global_get_global(), unit);
         ABT_thread thread = ABTI_thread_get_handle(p_thread);
         LOG_DEBUG_POOL_POP(p_pool, thread);
+        ABTI_VERIF_EVENT(21, p_pool, thread, 0);
         return thread;
     }
 }
